@@ -1,10 +1,14 @@
 import PhyModel.Proofs.ConcDensity
 import PhyModel.Proofs.ConcModel
+import PhyModel.Proofs.ConcGibbs
+import PhyModel.Proofs.ConcGibbsMeasure
 /-! # C13 — the concentration update is an exact Gibbs step for the CRP concentration
 
 Property theorems only; helper lemmas live in `Proofs/ConcDensity.lean` (real analysis, Mathlib's
-`gammaPDFReal`, `betaPDFReal`, `beta`) and `Proofs/ConcModel.lean` (the import-free model
-`Model/Conc.lean`).
+`gammaPDFReal`, `betaPDFReal`, `beta`), `Proofs/GibbsTwoStage.lean` (abstract measure theory: two-stage
+Gibbs invariance for densities on a product of s-finite measure spaces), `Proofs/ConcGibbs.lean`,
+`Proofs/ConcGibbsMeasure.lean` (measurability / normalisation of the Beta and Gamma-mixture densities)
+and `Proofs/ConcModel.lean` (the import-free model `Model/Conc.lean`).
 
 What is proved here, for all `a, b > 0`, `α > 0`, `1 ≤ K ≤ n` (only `1 ≤ K`, `1 ≤ n` are needed),
 every value `η ∈ (0,1)` of the auxiliary variable:
@@ -19,14 +23,30 @@ every value `η ∈ (0,1)` of the auxiliary variable:
   are the two exact conditionals of `joint`;
 * `eta_marginal` — `∫₀¹ joint(x, η) dη = Γ(n) · Gamma(a,b)(x) x^K Γ(x)/Γ(x+n)`, the (unnormalised)
   conditional posterior of the concentration given `K` clones and `n` data points;
+* `eta_marginal_lintegral`, `eta_conditional_density`, `alpha_conditional_density` — the same three
+  facts in `ℝ≥0∞` / `∫⁻` form, as the objects of `GibbsTwoStage.gibbs_two_stage`: the marginal
+  `mX(x) = ∫⁻ joint(x, ·) = Γ(n) target(x)`, the quotient `c1 = joint / mX` is `betaPDF (x+1) n`, the
+  quotient `c2 = joint / mY` is the mixture density;
+* `conc_gibbs` — **the update is an exact Gibbs step**: the kernel
+  `x ↦ (η ~ Beta(x+1, n); x' ~ π(η) Gamma(a+K, b - log η) + (1-π(η)) Gamma(a+K-1, b - log η))`
+  leaves the measure with density `target a b K n` on `(0, ∞)` invariant, in the form
+  `∫ target(x) ∫ Beta(x+1,n)(η) ∫ mixture(η)(x') f(x') dx' dη dx = ∫ target(x') f(x') dx'` for every
+  measurable `f : ℝ → [0, ∞]`.  It is the instance of `GibbsTwoStage.gibbs_two_stage_real` (Tonelli
+  twice) at `eta_conditional`, `alpha_conditional`, `eta_marginal`;
+* `conc_gibbs_measure`, `conc_gibbs_set` — the same with Mathlib's `betaMeasure`, `gammaMeasure`:
+  `∫ P(x' ∈ A | x) dposterior(x) = posterior(A)` for every measurable `A`, where
+  `posterior = posteriorMeasure a b K n` has density `target`; `posterior_finite_pos` — that measure
+  has finite non-zero total mass, so the normalised posterior exists and is invariant too
+  (the identity is homogeneous in `target`);
 * `kn_from_tree` — `K` = number of clones, `n` = number of data points not in the outlier set;
 * `value_in_force` — in the run loop, every trace entry records the value returned by that
   iteration's update and its density was evaluated with the same value.
 
-Full statement (NOT proved here):
-  `theorem conc_gibbs : the Markov kernel  α ↦ (η ~ Beta(α+1, n); α' ~ mixture(η))  leaves the
-   probability measure with density ∝ target a b K n invariant.`
--- OBLIGATION-OPEN conc_gibbs: the measure-theoretic step "drawing each coordinate from its exact conditional density of a joint density leaves the marginal invariant" (Fubini / disintegration for continuous densities) is cited (Escobar & West 1995), not formalised; conc_gibbs_partial assembles every analytic ingredient of it
+Remark (packaging, not an open obligation): the transition kernel is written as the iterated integral
+`x ↦ ∫ mixtureMeasure η dBeta(x+1, n)(η)`, not as a Mathlib `ProbabilityTheory.Kernel` composed with
+`Measure.bind` — that needs measurability of `x ↦ betaMeasure (x+1) n`, hence of `Real.Gamma`, which
+Mathlib does not provide yet.
+
 -- OBLIGATION-OPEN conc_floor: the code floors the Gamma draw at 1e-10 (`Conc.finish`, both branches); all statements here are about the uncensored draw — known finding F12 for 1 <= K
 
 The floating-point evaluation, `np.log`, and scipy's samplers are outside the model. -/
@@ -183,7 +203,7 @@ theorem value_in_force_off (thin : ℕ) (init : ℚ) (draws : List ℚ) :
   · have := loop_false_spec thin draws 0 _ e he
     exact ⟨this.2, this.1⟩
 
-/-- **C13, assembled (partial).**  For the model's inputs (`a, b, α` rational, `L = -log η > 0`
+/-- **C13, the ingredients at the model's parameters.**  For the model's inputs (`a, b, α` rational, `L = -log η > 0`
 rational, i.e. `η = e^{-L}`), `1 ≤ K`, `1 ≤ n`: the model takes the mixture branch with parameters
 `m`, and, over the reals,
  (i)   the Beta draw with the model's parameters is the exact `η`-conditional of `joint` at `α`;
@@ -191,7 +211,7 @@ rational, i.e. `η = e^{-L}`), `1 ≤ K`, `1 ≤ n`: the model takes the mixture
        `m.shape` is the one selected by the Bernoulli outcome) and rate `m.rate = 1/m.scale` is the
        exact conditional of the concentration given `η`, with density `∝ x^(a+K-2)(x+n)e^{-x m.rate}`;
  (iii) the `η`-marginal of `joint` is `Γ(n) ·` the conditional posterior kernel `target`.
-Missing for the full property: see `OBLIGATION-OPEN conc_gibbs` above. -/
+The invariance statement built from these ingredients is `conc_gibbs` below. -/
 theorem conc_gibbs_partial (a b α L : ℚ) (K n : ℕ) (bern : Bool) (ha : 0 < a) (hb : 0 < b)
     (hα : 0 < α) (hL : 0 < L) (hK : 1 ≤ K) (hn : 1 ≤ n) :
     ∃ m : Mix, plan a b α K n L bern = some (.mix m) ∧
@@ -244,6 +264,231 @@ theorem conc_gibbs_partial (a b α L : ℚ) (K n : ℕ) (bern : Bool) (ha : 0 < 
   · rw [hsc, hR]; push_cast; ring
   · exact eta_marginal a b α K n hα' hn
 
+/-- **The marginal as a Lebesgue integral** (`mX` of `GibbsTwoStage`): for `x > 0`,
+`∫⁻_{(0,1)} joint(x, η) dη = Γ(n) · target(x)` in `ℝ≥0∞`. -/
+theorem eta_marginal_lintegral (a b x : ℝ) (K n : ℕ) (ha : 0 < a) (hb : 0 < b) (hx : 0 < x)
+    (hn : 1 ≤ n) :
+    ∫⁻ η in Ioo (0 : ℝ) 1, ENNReal.ofReal (joint a b K n x η)
+      = ENNReal.ofReal (Gamma n * target a b K n x) := by
+  have hn' : (0 : ℝ) < n := by exact_mod_cast hn
+  obtain ⟨Z, hZ⟩ := eta_conditional a b x K n hx hn
+  have hx1 : 0 < x + 1 := by linarith
+  rw [← eta_marginal a b x K n hx hn]
+  exact (GibbsTwoStage.ofReal_integral_of_factor (volume.restrict (Ioo (0 : ℝ) 1))
+    (joint a b K n x) (betaPDFReal (x + 1) n)
+    ((measurable_jointR a b K n).comp measurable_prodMk_left)
+    (ae_restrict_of_forall_mem measurableSet_Ioo fun η hη =>
+      jointR_nonneg ha hb hn' hx hη.1 hη.2)
+    (ae_restrict_of_forall_mem measurableSet_Ioo fun η hη =>
+      (betaPDFReal_pos hη.1 hη.2 hx1 hn').le)
+    (lintegral_betaPDFReal_Ioo hx1 hn') Z
+    (ae_restrict_of_forall_mem measurableSet_Ioo fun η hη => hZ η hη.1 hη.2)).symm
+
+/-- **The first conditional density is the Beta density** (`c1` of `GibbsTwoStage.gibbs_two_stage`):
+for `x > 0`, `η ∈ (0,1)`, `joint(x, η) / ∫⁻_{(0,1)} joint(x, ·) = betaPDF (x+1) n η`. -/
+theorem eta_conditional_density (a b x η : ℝ) (K n : ℕ) (ha : 0 < a) (hb : 0 < b) (hx : 0 < x)
+    (hn : 1 ≤ n) (h0 : 0 < η) (h1 : η < 1) :
+    ENNReal.ofReal (joint a b K n x η) / ∫⁻ η in Ioo (0 : ℝ) 1, ENNReal.ofReal (joint a b K n x η)
+      = betaPDF (x + 1) n η := by
+  have hn' : (0 : ℝ) < n := by exact_mod_cast hn
+  obtain ⟨Z, hZ⟩ := eta_conditional a b x K n hx hn
+  have hx1 : 0 < x + 1 := by linarith
+  exact GibbsTwoStage.quotient_eq_of_factor (volume.restrict (Ioo (0 : ℝ) 1))
+    (joint a b K n x) (betaPDFReal (x + 1) n)
+    (ae_restrict_of_forall_mem measurableSet_Ioo fun η hη =>
+      jointR_nonneg ha hb hn' hx hη.1 hη.2)
+    (ae_restrict_of_forall_mem measurableSet_Ioo fun η hη =>
+      (betaPDFReal_pos hη.1 hη.2 hx1 hn').le)
+    (lintegral_betaPDFReal_Ioo hx1 hn') Z
+    (ae_restrict_of_forall_mem measurableSet_Ioo fun η hη => hZ η hη.1 hη.2)
+    η (hZ η h0 h1) (jointR_pos ha hb hn' hx h0 h1) (betaPDFReal_pos h0 h1 hx1 hn').le
+
+/-- **The second conditional density is the mixture density** (`c2` of
+`GibbsTwoStage.gibbs_two_stage`): for `η ∈ (0,1)`, `x > 0`,
+`joint(x, η) / ∫⁻_{(0,∞)} joint(·, η)` is the Escobar–West mixture density at `x`. -/
+theorem alpha_conditional_density (a b x η : ℝ) (K n : ℕ) (ha : 0 < a) (hb : 0 < b) (hK : 1 ≤ K)
+    (hn : 1 ≤ n) (h0 : 0 < η) (h1 : η < 1) (hx : 0 < x) :
+    ENNReal.ofReal (joint a b K n x η) / ∫⁻ x in Ioi (0 : ℝ), ENNReal.ofReal (joint a b K n x η)
+      = ENNReal.ofReal (weight a b K n η * gammaPDFReal (a + K) (b - log η) x
+          + (1 - weight a b K n η) * gammaPDFReal (a + K - 1) (b - log η) x) := by
+  have hK' : (1 : ℝ) ≤ K := by exact_mod_cast hK
+  have hn' : (0 : ℝ) < n := by exact_mod_cast hn
+  obtain ⟨D, hD⟩ := alpha_conditional a b η K n ha hb hK hn h0 h1
+  exact GibbsTwoStage.quotient_eq_of_factor (volume.restrict (Ioi (0 : ℝ)))
+    (fun x => joint a b K n x η) (mixR a b K n η)
+    (ae_restrict_of_forall_mem measurableSet_Ioi fun x hx => jointR_nonneg ha hb hn' hx h0 h1)
+    (ae_of_all _ (mixR_nonneg ha hb hK' hn' h0 h1))
+    (lintegral_mixR_Ioi ha hb hK' hn' h0 h1) D
+    (ae_restrict_of_forall_mem measurableSet_Ioi fun x hx => hD x hx)
+    x (hD x hx) (jointR_pos ha hb hn' hx h0 h1) (mixR_nonneg ha hb hK' hn' h0 h1 x)
+
+/-- **C13: the update is an exact Gibbs step.**  For `a, b > 0`, `1 ≤ K`, `1 ≤ n`: if the
+concentration `x` is distributed with density `target a b K n` w.r.t. Lebesgue measure on `(0, ∞)`,
+`η` is drawn from Beta(`x+1`, `n`) and then `x'` from the mixture
+`π Gamma(a+K, b - log η) + (1-π) Gamma(a+K-1, b - log η)` with the Escobar–West weight, then `x'` is
+again distributed with density `target a b K n`.  Stated for every measurable test function
+`f : ℝ → [0, ∞]` (`f` = indicator of a measurable set gives the statement about measures; `target`
+is not normalised, the identity is homogeneous in it). -/
+theorem conc_gibbs (a b : ℝ) (K n : ℕ) (ha : 0 < a) (hb : 0 < b) (hK : 1 ≤ K) (hn : 1 ≤ n)
+    (f : ℝ → ENNReal) (hf : Measurable f) :
+    ∫⁻ x in Ioi (0 : ℝ), ENNReal.ofReal (target a b K n x) *
+        ∫⁻ η in Ioo (0 : ℝ) 1, betaPDF (x + 1) n η *
+          ∫⁻ x' in Ioi (0 : ℝ),
+            ENNReal.ofReal (weight a b K n η * gammaPDFReal (a + K) (b - log η) x'
+              + (1 - weight a b K n η) * gammaPDFReal (a + K - 1) (b - log η) x') * f x'
+      = ∫⁻ x in Ioi (0 : ℝ), ENNReal.ofReal (target a b K n x) * f x := by
+  have hK' : (1 : ℝ) ≤ K := by exact_mod_cast hK
+  have hn' : (0 : ℝ) < n := by exact_mod_cast hn
+  have hG : 0 < Gamma n := Gamma_pos_of_pos hn'
+  have key := GibbsTwoStage.gibbs_two_stage_real (volume.restrict (Ioi (0 : ℝ)))
+    (volume.restrict (Ioo (0 : ℝ) 1)) (joint a b K n) (measurable_jointR a b K n)
+    (fun x => Gamma n * target a b K n x) (fun x η => betaPDFReal (x + 1) n η)
+    (mixR a b K n) (fun x => measurable_betaPDFReal _ _) (measurable_mixR a b K n)
+    ?_ ?_ ?_ ?_ f hf
+  · simp_rw [ENNReal.ofReal_mul hG.le, mul_assoc] at key
+    rw [lintegral_const_mul' _ _ ENNReal.ofReal_ne_top,
+      lintegral_const_mul' _ _ ENNReal.ofReal_ne_top] at key
+    exact (ENNReal.mul_right_inj (by simpa using hG) ENNReal.ofReal_ne_top).mp key
+  · -- the joint is nonnegative on (0,∞) × (0,1)
+    refine ae_restrict_of_forall_mem measurableSet_Ioi fun x hx => ?_
+    exact ae_restrict_of_forall_mem measurableSet_Ioo fun η hη =>
+      jointR_nonneg ha hb hn' hx hη.1 hη.2
+  · -- in η: a multiple of the Beta(x+1, n) density (`eta_conditional`)
+    refine ae_restrict_of_forall_mem measurableSet_Ioi fun x hx => ⟨?_, ?_, ?_⟩
+    · exact ae_restrict_of_forall_mem measurableSet_Ioo fun η hη =>
+        (betaPDFReal_pos hη.1 hη.2 (by linarith [mem_Ioi.mp hx]) hn').le
+    · exact lintegral_betaPDFReal_Ioo (by linarith [mem_Ioi.mp hx]) hn'
+    · obtain ⟨Z, hZ⟩ := eta_conditional a b x K n hx hn
+      exact ⟨Z, ae_restrict_of_forall_mem measurableSet_Ioo fun η hη => hZ η hη.1 hη.2⟩
+  · -- in x: a multiple of the mixture density (`alpha_conditional`)
+    refine ae_restrict_of_forall_mem measurableSet_Ioo fun η hη => ⟨?_, ?_, ?_⟩
+    · exact ae_of_all _ (mixR_nonneg ha hb hK' hn' hη.1 hη.2)
+    · exact lintegral_mixR_Ioi ha hb hK' hn' hη.1 hη.2
+    · obtain ⟨D, hD⟩ := alpha_conditional a b η K n ha hb hK hn hη.1 hη.2
+      exact ⟨D, ae_restrict_of_forall_mem measurableSet_Ioi fun x hx => hD x hx⟩
+  · -- the η-marginal is Γ(n) · target (`eta_marginal`)
+    exact ae_restrict_of_forall_mem measurableSet_Ioi fun x hx => eta_marginal a b x K n hx hn
+
+/-- the measure on `ℝ` with density `target a b K n` w.r.t. Lebesgue measure on `(0, ∞)`: the
+(unnormalised) conditional posterior of the concentration given `K` clones and `n` data points -/
+noncomputable def posteriorMeasure (a b : ℝ) (K n : ℕ) : Measure ℝ :=
+  (volume.restrict (Ioi (0 : ℝ))).withDensity fun x => ENNReal.ofReal (target a b K n x)
+
+/-- the law of the second draw given `η`:
+`w(η) Gamma(a+K, b - log η) + (1 - w(η)) Gamma(a+K-1, b - log η)` (Mathlib's `gammaMeasure`) -/
+noncomputable def mixtureMeasure (a b : ℝ) (K n : ℕ) (η : ℝ) : Measure ℝ :=
+  ENNReal.ofReal (weight a b K n η) • gammaMeasure (a + K) (b - log η)
+    + ENNReal.ofReal (1 - weight a b K n η) • gammaMeasure (a + K - 1) (b - log η)
+
+/-- **C13, measure form.**  With Mathlib's `betaMeasure`, `gammaMeasure`: starting from
+`x ~ posteriorMeasure`, drawing `η ~ Beta(x+1, n)` and then `x' ~ mixtureMeasure η` gives
+`x' ~ posteriorMeasure`: the expectation of every measurable `f ≥ 0` of `x'` is `∫ f d posterior`. -/
+theorem conc_gibbs_measure (a b : ℝ) (K n : ℕ) (ha : 0 < a) (hb : 0 < b) (hK : 1 ≤ K) (hn : 1 ≤ n)
+    (f : ℝ → ENNReal) (hf : Measurable f) :
+    ∫⁻ x, ∫⁻ η, ∫⁻ x', f x' ∂mixtureMeasure a b K n η ∂betaMeasure (x + 1) n
+        ∂posteriorMeasure a b K n
+      = ∫⁻ x, f x ∂posteriorMeasure a b K n := by
+  have hK' : (1 : ℝ) ≤ K := by exact_mod_cast hK
+  have hn' : (0 : ℝ) < n := by exact_mod_cast hn
+  have hG : 0 < Gamma n := Gamma_pos_of_pos hn'
+  have hT : AEMeasurable (fun x => ENNReal.ofReal (target a b K n x))
+      (volume.restrict (Ioi (0 : ℝ))) :=
+    (aemeasurable_of_eq_integral (measurable_jointR a b K n) (volume.restrict (Ioo (0 : ℝ) 1))
+      measurableSet_Ioi (Gamma n) _ (fun x hx => eta_marginal a b x K n hx hn)
+      hG.ne').ennreal_ofReal
+  have hfin : ∀ᵐ x ∂volume.restrict (Ioi (0 : ℝ)), ENNReal.ofReal (target a b K n x) < ⊤ :=
+    ae_of_all _ fun _ => ENNReal.ofReal_lt_top
+  unfold posteriorMeasure
+  rw [lintegral_withDensity_eq_lintegral_mul_non_measurable₀ _ hT hfin,
+    lintegral_withDensity_eq_lintegral_mul_non_measurable₀ _ hT hfin]
+  simp only [Pi.mul_apply]
+  rw [← conc_gibbs a b K n ha hb hK hn f hf]
+  refine lintegral_congr fun x => ?_
+  congr 1
+  rw [lintegral_betaMeasure]
+  refine setLIntegral_congr_fun measurableSet_Ioo fun η hη => ?_
+  obtain ⟨hw0, hw1⟩ := wR_mem ha hb hK' hn' hη.1 hη.2
+  have hr : 0 < b - log η := by linarith [log_neg hη.1 hη.2]
+  show _ * _ = _ * _
+  congr 1
+  exact lintegral_gammaMixture hw0 hw1 (by linarith) (by linarith) hr f hf
+
+/-- **C13, set form.**  `∫ P(x' ∈ A | x) d posterior(x) = posterior(A)` for every measurable `A`:
+`posteriorMeasure` is invariant under the update's transition kernel
+`x ↦ ∫ mixtureMeasure η dBeta(x+1, n)(η)`. -/
+theorem conc_gibbs_set (a b : ℝ) (K n : ℕ) (ha : 0 < a) (hb : 0 < b) (hK : 1 ≤ K) (hn : 1 ≤ n)
+    (A : Set ℝ) (hA : MeasurableSet A) :
+    ∫⁻ x, ∫⁻ η, mixtureMeasure a b K n η A ∂betaMeasure (x + 1) n ∂posteriorMeasure a b K n
+      = posteriorMeasure a b K n A := by
+  have := conc_gibbs_measure a b K n ha hb hK hn (A.indicator 1) (measurable_one.indicator hA)
+  simpa only [lintegral_indicator_one hA] using this
+
+/-- the second draw is from a probability measure (for `η ∈ (0,1)`; the first is from Mathlib's
+`betaMeasure (x+1) n`, a probability measure by `isProbabilityMeasureBeta`): the update's transition
+kernel is Markov -/
+theorem mixtureMeasure_prob (a b η : ℝ) (K n : ℕ) (ha : 0 < a) (hb : 0 < b) (hK : 1 ≤ K)
+    (hn : 1 ≤ n) (h0 : 0 < η) (h1 : η < 1) : mixtureMeasure a b K n η univ = 1 := by
+  have hK' : (1 : ℝ) ≤ K := by exact_mod_cast hK
+  have hn' : (0 : ℝ) < n := by exact_mod_cast hn
+  obtain ⟨hw0, hw1⟩ := wR_mem ha hb hK' hn' h0 h1
+  have hr : 0 < b - log η := by linarith [log_neg h0 h1]
+  have := isProbabilityMeasure_gammaMeasure (by linarith : 0 < a + (K : ℝ)) hr
+  have := isProbabilityMeasure_gammaMeasure (by linarith : 0 < a + (K : ℝ) - 1) hr
+  unfold mixtureMeasure
+  rw [Measure.add_apply, Measure.smul_apply, Measure.smul_apply, measure_univ, measure_univ,
+    smul_eq_mul, smul_eq_mul, mul_one, mul_one,
+    ← ENNReal.ofReal_add (by exact hw0) (by unfold weight; exact sub_nonneg.mpr hw1)]
+  simp
+
+/-- **The posterior is normalisable.**  `posteriorMeasure a b K n` (density `target`) has finite,
+non-zero total mass, so the probability measure with density `∝ target` exists; by homogeneity of
+`conc_gibbs_set` it is invariant under the update as well. -/
+theorem posterior_finite_pos (a b : ℝ) (K n : ℕ) (ha : 0 < a) (hb : 0 < b) (hK : 1 ≤ K)
+    (hn : 1 ≤ n) :
+    posteriorMeasure a b K n univ ≠ 0 ∧ posteriorMeasure a b K n univ ≠ ⊤ := by
+  have hK' : (1 : ℝ) ≤ K := by exact_mod_cast hK
+  have hn1 : (1 : ℝ) ≤ n := by exact_mod_cast hn
+  have hn' : (0 : ℝ) < n := by linarith
+  have hG : 0 < Gamma n := Gamma_pos_of_pos hn'
+  have hmass : posteriorMeasure a b K n univ
+      = ∫⁻ x in Ioi (0 : ℝ), ENNReal.ofReal (target a b K n x) := by
+    unfold posteriorMeasure
+    rw [withDensity_apply _ MeasurableSet.univ, Measure.restrict_univ]
+  have hpos : ∀ x ∈ Ioi (0 : ℝ), 0 < target a b K n x := fun x hx => by
+    have hx' : (0 : ℝ) < x := hx
+    have := gammaPDFReal_pos ha hb hx'
+    have := Gamma_pos_of_pos hx'
+    have := Gamma_pos_of_pos (by linarith : 0 < x + (n : ℝ))
+    have := rpow_pos_of_pos hx' (K : ℝ)
+    unfold target
+    positivity
+  rw [hmass]
+  constructor
+  · -- positive: `target > 0` on a set of positive Lebesgue measure
+    intro h
+    have hT : AEMeasurable (fun x => ENNReal.ofReal (target a b K n x))
+        (volume.restrict (Ioi (0 : ℝ))) :=
+      (aemeasurable_of_eq_integral (measurable_jointR a b K n) (volume.restrict (Ioo (0 : ℝ) 1))
+        measurableSet_Ioi (Gamma n) _ (fun x hx => eta_marginal a b x K n hx hn)
+        hG.ne').ennreal_ofReal
+    have h0 := (lintegral_eq_zero_iff' hT).mp h
+    rw [Filter.EventuallyEq, ae_restrict_iff' measurableSet_Ioi] at h0
+    have : volume (Ioi (0 : ℝ)) = 0 := by
+      rw [measure_eq_zero_iff_ae_notMem]
+      filter_upwards [h0] with x hx hmem
+      exact (ENNReal.ofReal_pos.mpr (hpos x hmem)).ne' (hx hmem)
+    simp at this
+  · -- finite: Γ(n) · mass = ∫∫ joint < ⊤ (Tonelli and the bounded constant of `alpha_conditional`)
+    have hfin := lintegral_jointR_lt_top (k := K) (n := n) ha hb hK' hn1
+    have hx : ∀ x ∈ Ioi (0 : ℝ), ∫⁻ η in Ioo (0 : ℝ) 1, ENNReal.ofReal (jointR a b K n x η)
+        = ENNReal.ofReal (Gamma n) * ENNReal.ofReal (target a b K n x) := fun x hx => by
+      rw [← ENNReal.ofReal_mul hG.le]; exact eta_marginal_lintegral a b x K n ha hb hx hn
+    rw [setLIntegral_congr_fun measurableSet_Ioi hx,
+      lintegral_const_mul' _ _ ENNReal.ofReal_ne_top] at hfin
+    intro htop
+    rw [htop, ENNReal.mul_top (by simpa using hG)] at hfin
+    exact lt_irrefl _ hfin
+
 /-! ## Non-vacuity: the hypotheses are satisfiable on concrete non-trivial inputs -/
 
 /-- the run command's prior `a = b = 1/100`, `α = 1`, `K = 2` clones, `n = 5` points, `L = 3/10`:
@@ -253,10 +498,29 @@ example : plan (1/100) (1/100) 1 2 5 (3/10) true = some (.mix
       scale := 100/31 }) := by
   norm_num [plan, rate, odds, shape0, piOf, shapeOf]
 
-/-- `mixture_density_identity`, `alpha_conditional`, `eta_conditional`, `eta_marginal`: the real
+/-- `mixture_density_identity`, `alpha_conditional`, `eta_conditional`, `eta_marginal`,
+`eta_marginal_lintegral`, `eta_conditional_density`, `alpha_conditional_density`: the real
 hypotheses hold at `a = b = 1/100`, `η = 1/2`, `K = 2`, `n = 5`, `x = 1` -/
 example : (0 : ℝ) < 1/100 ∧ (1 : ℕ) ≤ 2 ∧ (1 : ℕ) ≤ 5 ∧ (0 : ℝ) < 1/2 ∧ (1/2 : ℝ) < 1 ∧ (0 : ℝ) < 1 := by
   norm_num
+
+/-- `conc_gibbs`, `conc_gibbs_measure`, `conc_gibbs_set`, `posterior_finite_pos`,
+`mixtureMeasure_prob`: the hypotheses hold at the run command's prior `a = b = 1/100`, `K = 2`,
+`n = 5`, `A = (1, 2]`, `f = 1_A`, `η = 1/2`; by `posterior_finite_pos` the invariance identity is not
+`0 = 0` or `⊤ = ⊤` for `A = univ` -/
+example : let P := posteriorMeasure (1/100) (1/100) 2 5
+    (∫⁻ x, ∫⁻ η, mixtureMeasure (1/100) (1/100) 2 5 η (Ioc 1 2) ∂betaMeasure (x + 1) (5 : ℕ) ∂P
+      = P (Ioc 1 2)) ∧ P univ ≠ 0 ∧ P univ ≠ ⊤ ∧ mixtureMeasure (1/100) (1/100) 2 5 (1/2) univ = 1 ∧
+    Measurable ((Ioc (1 : ℝ) 2).indicator (1 : ℝ → ENNReal)) :=
+  ⟨conc_gibbs_set (1/100) (1/100) 2 5 (by norm_num) (by norm_num) (by norm_num) (by norm_num) _
+      measurableSet_Ioc,
+    (posterior_finite_pos (1/100) (1/100) 2 5 (by norm_num) (by norm_num) (by norm_num)
+      (by norm_num)).1,
+    (posterior_finite_pos (1/100) (1/100) 2 5 (by norm_num) (by norm_num) (by norm_num)
+      (by norm_num)).2,
+    mixtureMeasure_prob (1/100) (1/100) (1/2) 2 5 (by norm_num) (by norm_num) (by norm_num)
+      (by norm_num) (by norm_num) (by norm_num),
+    measurable_one.indicator measurableSet_Ioc⟩
 
 /-- `kn_from_tree`: clone {0,1} with child {2}, an empty sibling clone, outliers {3,4}: `K = 3`
 clones, `n = 3` of the `N = 5` data points -/
